@@ -373,6 +373,19 @@ func runC15(cs c15Case) *Outcome {
 					}
 					o.label("account-deleted")
 				}
+				// coins of denominations the EVM does not handle: only a self-destruct (which burns everything the account
+				// holds) may change them; a surviving account keeps every one of them, whatever the EVM did at its address
+				if x.Exists && y.Exists && !canDestruct[strings.ToLower(a.Hex())] && !ctorDestructs {
+					for _, coin := range x.Balances {
+						if coin.Denom == chain.Denom || c.App.CPCKeeper.GetErc20CustomPrecompiledContractAddressByMinDenom(c.CommittedCtx(), coin.Denom) != nil {
+							continue
+						}
+						if after := y.Balances.AmountOf(coin.Denom); !after.Equal(coin.Amount) {
+							o.dev("", "b%d t%d: account %s held %s and now holds %s%s although it never self-destructed", bi, ti, a.Hex(), coin, after, coin.Denom)
+						}
+						o.label("foreign-denomination-holder-checked")
+					}
+				}
 				if x.Kind != "base" && (y.Repr != x.Repr || !y.Balances.Equal(x.Balances)) {
 					reached = true
 				}
